@@ -13,7 +13,7 @@ def pref_list(draw, cands):
 @st.composite
 def profile(draw, n_min=2, n_max=5, max_ballots=60):
     """{"cands", "ballots": [pref list | None (record without the contest)], "winner", "order_hint", "asn"}"""
-    from oracles.irv_ref import irv_winners
+    from oracles.irv_ref import irv_winners, irv_order
 
     n = draw(st.integers(n_min, n_max))
     # letters, or numeric identifiers that concatenate ambiguously ('1'+'2' == '12')
@@ -72,11 +72,18 @@ def profile(draw, n_min=2, n_max=5, max_ballots=60):
         winner = draw(st.sampled_from(ws))
     else:
         winner = draw(st.sampled_from(cands))
-    hint = draw(st.sampled_from([None, None, "perm"]))
+    # the hint is only a search heuristic (a complete order the dive follows first); the file format carries it next to the
+    # winner, and nothing makes the two agree: it may end in the reported winner, be the records' own elimination order
+    # while the reported winner is another candidate, or be any order at all
+    hint = draw(st.sampled_from([None, None, None, "perm", "perm", "true", "any"]))
     order = None
-    if hint:
+    if hint == "perm":
         rest = [c for c in draw(st.permutations(cands)) if c != winner]
         order = rest + [winner]
+    elif hint == "true":
+        order = irv_order(cands, real)
+    elif hint == "any":
+        order = list(draw(st.permutations(cands)))
     # auditable ballots beyond the supplied records (the 'informal' count of a .raire header / a card upper bound)
     extra = draw(st.sampled_from([0, 0, 0, 1, 3, 10, 40]))
     return {"cands": cands, "ballots": ballots, "winner": winner, "order_hint": order,
